@@ -340,3 +340,22 @@ theorem assign_writes_current_scope (fuel env : Nat) (x : String) (e : Expr) (s 
   rw [evalE]; simp [bindM, h, setVar]
 
 end Pangaea.C03
+
+namespace Pangaea.C03
+open Pangaea.Core
+
+/-- **A name the call does not bind is looked up in the enclosing scope of the closure's frame** - the scope where the
+    literal was written - as that scope is at the time of the call (so later reassignments there are visible, the
+    caller's variables are not). -/
+theorem lookup_falls_through (frames : List Frame) (n e : Nat) (x : String) (fr : Frame) (outer : Nat)
+    (hfr : frames[e]? = some fr) (hx : fr.vars.lookup x = none) (ho : fr.outer = some outer) :
+    lookupVar frames (n + 1) e x = lookupVar frames n outer x := by
+  simp [lookupVar, hfr, hx, ho]
+
+/-- **A name the call binds shadows every enclosing binding.** -/
+theorem lookup_innermost_wins (frames : List Frame) (n e : Nat) (x : String) (fr : Frame) (v : Val)
+    (hfr : frames[e]? = some fr) (hx : fr.vars.lookup x = some v) :
+    lookupVar frames (n + 1) e x = some v := by
+  simp [lookupVar, hfr, hx]
+
+end Pangaea.C03
